@@ -783,11 +783,25 @@ func (in *Interp) sliceOp(fr *frame, ins *ssa.Slice) Value {
 		}
 		return in.concInt(in.get(fr, v), "slice bound at "+in.posOf(ins, fr))
 	}
+	// a symbolic bound is first split into "outside [0, cap]" (a run-time panic, decided by the solver)
+	// and "inside", and only the inside values are enumerated
+	getB := func(v ssa.Value, def, cp int) int {
+		if v == nil {
+			return def
+		}
+		val := in.get(fr, v)
+		if t, ok := val.(*smt.Term); ok && !t.IsConst() {
+			if in.branch(in.C.Ult(in.C.Const(t.W, uint64(cp)), t), "slice bound above capacity") {
+				in.goPanicf("slice bounds out of range (bound outside [0, %d]) at %s", cp, in.posOf(ins, fr))
+			}
+		}
+		return in.concInt(val, "slice bound at "+in.posOf(ins, fr))
+	}
 	switch xv := x.(type) {
 	case Slice:
-		lo := getI(ins.Low, 0)
-		hi := getI(ins.High, xv.Len)
-		mx := getI(ins.Max, xv.Cap)
+		lo := getB(ins.Low, 0, xv.Cap)
+		hi := getB(ins.High, xv.Len, xv.Cap)
+		mx := getB(ins.Max, xv.Cap, xv.Cap)
 		if lo < 0 || hi < lo || mx < hi || mx > xv.Cap {
 			in.goPanicf("slice bounds out of range [%d:%d:%d] with capacity %d at %s", lo, hi, mx, xv.Cap, in.posOf(ins, fr))
 		}
